@@ -178,7 +178,7 @@ def rule_decoder_roles(ctx: Ctx, rule: str) -> None:
         m = re.fullmatch(r'chr\(int\(m\.group\((\d+)\)(\[2:\])?, (\d+)\)\)', t)
         if m:
             return ('chr', int(m.group(1)), bool(m.group(2)), int(m.group(3)))
-        m = re.fullmatch(r'bytes\(\[<\(?int\(m\.group\((\d+)\)(\[2:\])?, (\d+)\)(&255\))?>\]\)', t)
+        m = re.fullmatch(r'bytes\(\[<?\(?int\(m\.group\((\d+)\)(\[2:\])?, (\d+)\)(&255\))?>?\]\)', t)
         if m:
             return ('byte', int(m.group(1)), bool(m.group(2)), int(m.group(3)))
         m = re.fullmatch(r'unicodedata\.lookup\(m\.group\((\d+)\)\[3:-1\]\)', t)
@@ -318,9 +318,10 @@ def rule_normalise_before_expand(ctx: Ctx, rule: str) -> None:
                    'definition util.norm_pattern(p, not <is_unix>, <RAWCHARS bit of the same flags>)')
     repo = ctx.repo
     n = 0
-    for mod, qn, unix, raw in (('_wcparse', 'translate', 'not is_unix', 'bool(flags & RAWCHARS)'),
-                               ('_wcparse', 'compile_pattern', 'not is_unix', 'bool(flags & RAWCHARS)'),
-                               ('glob', 'Glob._iter_patterns', 'not self.unix', 'self.raw_chars')):
+    from . import pipeline
+    pipeline.rule_pipeline_loop(ctx, rule, which={'expand-argument'}, text=False)
+    n = 2
+    for mod, qn, unix, raw in (('glob', 'Glob._iter_patterns', 'not self.unix', 'self.raw_chars'),):
         fi = repo.func(mod, qn)
         calls = [c for c in walk_no_nested(fi.node) if isinstance(c, ast.Call) and norm_src(c.func) in ('expand', '_wcparse.expand')]
         for c in calls:
@@ -342,10 +343,5 @@ def rule_normalise_before_expand(ctx: Ctx, rule: str) -> None:
                    desc, witness=r"fnmatch('a', r'\x7b' + 'a,b}', RAWCHARS|BRACE): a decoded `{` must take part in brace expansion")
     ctx.floor(rule, 'expand call sites', n, 3)
     # attribute definitions used by Glob
-    gi = repo.func('glob', 'Glob.__init__')
-    src = {norm_src(s.targets[0]) if isinstance(s, ast.Assign) else norm_src(s.target): norm_src(s.value)
-           for s in walk_no_nested(gi.node) if isinstance(s, (ast.Assign, ast.AnnAssign)) and s.value is not None}
-    ctx.ob(rule, 'glob:Glob.__init__/raw_chars', src.get('self.raw_chars') == 'bool(self.flags & RAWCHARS)', repo.loc('glob', gi.node),
-           'self.raw_chars = bool(self.flags & RAWCHARS)', str(src.get('self.raw_chars')))
-    ctx.ob(rule, 'glob:Glob.__init__/unix', src.get('self.unix') == 'not bool(self.flags & FORCEWIN)', repo.loc('glob', gi.node),
-           'self.unix = not bool(self.flags & FORCEWIN)', str(src.get('self.unix')))
+    from . import ginit
+    ginit.rule_derived_attrs(ctx, rule, which={'raw_chars', 'unix'})
